@@ -258,6 +258,15 @@ Definition st_to_ascii (p1 p2 d1 d2 : N) (fold : option N) (use_len : bool) (l :
   flat_map (fun e : st_elem => [p1] ++ to_ascii d1 fold use_len (fst e) ++ [p2] ++ to_ascii d2 fold use_len (snd e)) l
   ++ [p1] ++ adec d1 ++ [47; 32; p2] ++ adec d2 ++ [47; 10].
 
+(** the same document when every element carries its OWN depths (an element of a RangeMOC2 may be labelled
+    shallower than the MOC2): each side is written at the depth of its label, the trailing depth-only
+    element at the depths of the MOC2 *)
+Definition st_elem_l := ((N * list aelem) * (N * list aelem))%type.
+Definition st_to_ascii_l (p1 p2 d1 d2 : N) (fold : option N) (use_len : bool) (l : list st_elem_l) : list N :=
+  flat_map (fun e : st_elem_l => [p1] ++ to_ascii (fst (fst e)) fold use_len (snd (fst e))
+                                ++ [p2] ++ to_ascii (fst (snd e)) fold use_len (snd (snd e))) l
+  ++ [p1] ++ adec d1 ++ [47; 32; p2] ++ adec d2 ++ [47; 10].
+
 (** str::trim on ASCII: U+0009..U+000D and U+0020 *)
 Definition is_trim_ws (c : N) : bool := ((9 <=? c) && (c <=? 13)) || (c =? 32).
 Fixpoint drop_ws (s : list N) : list N :=
